@@ -168,8 +168,13 @@ def main():
             rec['checks'] = {}
             detected = False
             for cid in CHECKS.get(f, []):
-                code, out = sh('/verif/tools/try_patch.sh %s %s' % (patch, cid), '/verif', 3600)
-                m = re.search(r'RESULT check=%s tier=\w+ exit=(\d+) violations=(\d+) :: (.*)' % cid, out)
+                for attempt in range(3):
+                    code, out = sh('/verif/tools/try_patch.sh %s %s' % (patch, cid), '/verif', 3600)
+                    m = re.search(r'RESULT check=%s tier=\w+ exit=(\d+) violations=(\d+) :: (.*)' % cid, out)
+                    if m and m.group(1) in ('0', '1'):
+                        break
+                    import time
+                    time.sleep(60)  # a disturbed environment (build cache being emptied): try again
                 if m:
                     rec['checks'][cid] = {'exit': int(m.group(1)), 'violations': int(m.group(2)), 'sigs': m.group(3).strip()[:300]}
                     if m.group(1) == '1':
